@@ -18,7 +18,7 @@ def run(ctx, rep):
         crate = ctx.crate(cfg)
         c15.check_value_ord(crate, rep, cfg)
         check_orduse(crate, rep, cfg)
-        rpanic.check(crate, rep, "R-PANIC.coll", ("filters.rs",), cfg, 15)
+        rpanic.check(crate, rep, "R-PANIC.coll", ("filters.rs",), cfg, 14)
 
 
 def check_orduse(crate, rep, cfg):
@@ -46,7 +46,17 @@ def check_orduse(crate, rep, cfg):
     rep.add("C16.ORDUSE", "C16.ORDUSE:sort:comparable-before-ok", ok, sort.where(0), "both non-empty Ok returns of sort are dominated by an ensure_comparable call whose Err is "
             "propagated (%d guarded, %d early return)" % (n_guarded, unguarded) + ("" if ok else " — VIOLATED"))
     ec0 = crate.one("filters::ensure_comparable")
-    adjacent_form = bool(ec0.locals_named("prev")) and len(ec0.loops()) == 1
+    # by shape: one loop, and a loop-carried `Option<&Value>` (the previous element) assigned before the loop and inside it
+    lps = ec0.loops()
+    carried = []
+    if len(lps) == 1:
+        for l, ds in ec0.defs.items():
+            if ec0.local_name(l) and "Option<&" in ec0.local_ty(l) and "Value" in ec0.local_ty(l):
+                inside = [d for d in ds if not d[2] and d[0] in lps[0]]
+                outside = [d for d in ds if not d[2] and d[0] not in lps[0]]
+                if inside and outside:
+                    carried.append(l)
+    adjacent_form = bool(carried)
     if adjacent_form:
         # ensure_comparable only inspects adjacent pairs (and skips pairs with none): that is sound only on the SORTED sequence,
         # where every kind is contiguous — so each call must come after the sort_by of the same arm
